@@ -38,8 +38,14 @@ theorem slotsEquiv_singleton {s₁ s₂ : Slot} (h : SlotsEquiv [s₁] [s₂]) :
 def tierCont (smith : Bool) (f : Nat) (rv : Profile) (S : List Cand) : Except Err Slot :=
   match eliminateOne (subsetProfile rv S) with
   | .error e => .error e
+  | .ok [Slot.tie _] => .error .notImplemented
   | .ok [s] => .ok s
   | .ok rem => tidemanTier smith f (subsetProfile (subsetProfile rv S) (slotCands rem))
+
+/-- the set a tier works with: the Smith / Schwartz set, or everybody when there is no pairwise contest (fix 30bd79e) -/
+def tierSet (smith : Bool) (rv : Profile) : List Cand :=
+  if (smithSchwartz (rankedToCondorcet rv) smith).isEmpty then allRankedCandidates rv
+  else smithSchwartz (rankedToCondorcet rv) smith
 
 def tierSel (smith : Bool) (f : Nat) (rv : Profile) (S : List Cand) : Except Err Slot :=
   match S with
@@ -49,8 +55,8 @@ def tierSel (smith : Bool) (f : Nat) (rv : Profile) (S : List Cand) : Except Err
 theorem tier_unfold (smith : Bool) (f : Nat) (rv : Profile) :
     tidemanTier smith (f + 1) rv =
       if rv.isEmpty then .error .notImplemented
-      else tierSel smith f rv (smithSchwartz (rankedToCondorcet rv) smith) := by
-  unfold tidemanTier tierSel tierCont
+      else tierSel smith f rv (tierSet smith rv) := by
+  unfold tidemanTier tierSel tierCont tierSet
   rfl
 
 theorem tierCont_perm (smith : Bool) (f : Nat)
@@ -80,8 +86,11 @@ theorem tierCont_perm (smith : Bool) (f : Nat)
         fun r₁ r₂ hrr => ih _ _ (subsetProfile_perm h2 (fun c => (slotCands_equiv hrr).mem_iff))
       match r₁, r₂, he', hl with
       | [], [], he', _ => exact hrec _ _ he'
-      | [s₁], [s₂], he', _ => exact he'
-      | a :: b :: t, c :: d :: t', he', _ => exact hrec _ _ he'
+      | [s₁], [s₂], he', _ =>
+        rcases slotsEquiv_singleton he' with ⟨c, rfl, rfl⟩ | ⟨T₁, T₂, rfl, rfl, _⟩
+        · exact he'
+        · exact rfl
+      | a :: b :: t, c :: d :: t', he', _ => cases a <;> cases c <;> exact hrec _ _ he'
       | [], _ :: _, _, hl => simp at hl
       | [_], [], _, hl => simp at hl
       | [_], _ :: _ :: _, _, hl => simp at hl
@@ -128,7 +137,21 @@ theorem tidemanTier_perm (smith : Bool) : ∀ (f : Nat) (rv₁ rv₂ : Profile),
     by_cases hE : rv₂.isEmpty = true
     · rw [if_pos hE, if_pos hE]; exact rfl
     · rw [if_neg hE, if_neg hE]
-      exact tierSel_perm smith f ih hr (smithSchwartz_perm (r2c_perm hr) (nodup_keys_r2c rv₁) smith)
+      have hS := smithSchwartz_perm (r2c_perm hr) (nodup_keys_r2c rv₁) smith
+      have hSe : (smithSchwartz (rankedToCondorcet rv₁) smith).isEmpty = (smithSchwartz (rankedToCondorcet rv₂) smith).isEmpty := by
+        cases h3 : smithSchwartz (rankedToCondorcet rv₁) smith with
+        | nil => rw [h3] at hS; rw [hS.nil_eq]
+        | cons a l =>
+          cases h4 : smithSchwartz (rankedToCondorcet rv₂) smith with
+          | nil => rw [h3, h4] at hS; exact absurd hS.eq_nil (by simp)
+          | cons b l' => rfl
+      have hset : (tierSet smith rv₁).Perm (tierSet smith rv₂) := by
+        unfold tierSet
+        rw [hSe]
+        split
+        · exact allRanked_perm hr
+        · exact hS
+      exact tierSel_perm smith f ih hr hset
 
 /-- `run_tier` as a whole (with the lone-candidate shortcut of fix bddde61) -/
 theorem tidemanRunTier_perm (smith : Bool) (f : Nat) (rv₁ rv₂ : Profile) (hr : rv₁.Perm rv₂) :
